@@ -6,6 +6,7 @@ import (
 	"go/constant"
 	"go/token"
 	"go/types"
+	"golang.org/x/tools/go/packages"
 	"regexp"
 	"sort"
 	"strings"
@@ -137,6 +138,8 @@ func (e *Env) RFragOrder() {
 	e.RAttachWithinFile()
 	e.RStageMonotone()
 	e.RFragDecorationPositions()
+	e.RPhysicalLines()
+	e.RSearchTransparency()
 	pkg := e.Prog.Pkg(load.PkgDecorator)
 	info := pkg.TypesInfo
 	c := e.Sib.Ctx[load.PkgDecorator]
@@ -199,7 +202,10 @@ func (e *Env) RFragOrder() {
 	// end positions, read through the locals that hold them, name the same variable.
 	if lit != nil {
 		undo := c.InstallReachingIn(lit.Body)
-		posLine := regexp.MustCompile(`^f\.Fset\.Position\((.*)\)\.Line(?: [+-] \d+)?$`)
+		// the line of a position: through the file set (Position / PositionFor) or through a method of
+		// the decorator that wraps such a look-up (which numbering it gives is R-SCAN's and
+		// RPhysicalLines' business)
+		posLine := regexp.MustCompile(`^f\.(?:Fset\.Position(?:For)?|\w+)\((.*?)(?:, (?:true|false))?\)\.Line(?: [+-] \d+)?$`)
 		ident := regexp.MustCompile(`([A-Za-z_]\w*)\.`)
 		nAvoid := 0
 		ast.Inspect(lit.Body, func(n ast.Node) bool {
@@ -330,16 +336,37 @@ func (e *Env) RFragOrder() {
 			}
 			return info.Uses[id]
 		}
-		ast.Inspect(lk.Body, func(n ast.Node) bool {
-			as, ok := n.(*ast.AssignStmt)
-			if !ok || len(as.Lhs) != 3 || len(as.Rhs) != 1 {
-				return true
+		// a search assignment: `…, dec, found = f.<search>(…)` where the method's last two results
+		// are a decoration point and a bool (findDecoration, or a specialised search beside it)
+		isSearch := func(as *ast.AssignStmt) bool {
+			if len(as.Rhs) != 1 || len(as.Lhs) < 2 {
+				return false
 			}
 			call, ok := as.Rhs[0].(*ast.CallExpr)
-			if !ok || !schema.IsMethod(c.Callee(call), load.PkgDecorator, "fileDecorator", "findDecoration") {
+			if !ok {
+				return false
+			}
+			fn := c.Callee(call)
+			if fn == nil || fn.Pkg() == nil || fn.Pkg().Path() != load.PkgDecorator {
+				return false
+			}
+			sig, ok := fn.Type().(*types.Signature)
+			if !ok || sig.Recv() == nil || sig.Results().Len() != len(as.Lhs) {
+				return false
+			}
+			k := sig.Results().Len()
+			if b, ok := sig.Results().At(k - 1).Type().Underlying().(*types.Basic); !ok || b.Kind() != types.Bool {
+				return false
+			}
+			_, tn := namedOf(sig.Results().At(k - 2).Type())
+			return tn == "decorationFragment"
+		}
+		ast.Inspect(lk.Body, func(n ast.Node) bool {
+			as, ok := n.(*ast.AssignStmt)
+			if !ok || !isSearch(as) {
 				return true
 			}
-			d, f := objOf(as.Lhs[1]), objOf(as.Lhs[2])
+			d, f := objOf(as.Lhs[len(as.Lhs)-2]), objOf(as.Lhs[len(as.Lhs)-1])
 			if d == nil || f == nil {
 				return true
 			}
@@ -354,7 +381,7 @@ func (e *Env) RFragOrder() {
 		for _, p := range pairs {
 			// uses of dec outside assignments from findDecoration
 			ast.Inspect(lk.Body, func(n ast.Node) bool {
-				if as, ok := n.(*ast.AssignStmt); ok && len(as.Lhs) == 3 {
+				if as, ok := n.(*ast.AssignStmt); ok && isSearch(as) {
 					return false
 				}
 				id, ok := n.(*ast.Ident)
@@ -401,7 +428,7 @@ func (e *Env) RFragOrder() {
 							// inside the loop found is only ever set by a search
 							forged := false
 							ast.Inspect(fs.Body, func(b ast.Node) bool {
-								if as, ok := b.(*ast.AssignStmt); ok && len(as.Lhs) != 3 {
+								if as, ok := b.(*ast.AssignStmt); ok && !(isSearch(as) && objOf(as.Lhs[len(as.Lhs)-1]) == p.found) {
 									for _, l := range as.Lhs {
 										if objOf(l) == p.found {
 											forged = true
@@ -565,4 +592,250 @@ func (e *Env) RFragDecorationPositions() {
 	}
 	e.Run.Analysed("fragger decoration points", n)
 	e.Run.Floor("R-FRAG", "fragger decoration points", n, 150)
+}
+
+// RPhysicalLines: every line or column number that the decorator uses to discover or place line
+// breaks is a position in the source text itself. (*token.FileSet).Position and
+// (*token.File).Position apply //line directives: after `//line x.go:2` two different lines of
+// the file report the same number (a line break is then taken for one inside an earlier
+// multi-line comment and dropped) or a line reports the number of the one before it (the line
+// break between them is never seen). PositionFor(p, false), File.Line and File.LineStart are
+// not adjusted. Debug output (arguments of fmt functions and of formatPos) may use either.
+func (e *Env) RPhysicalLines() {
+	pkg := e.Prog.Pkg(load.PkgDecorator)
+	info := pkg.TypesInfo
+	n := 0
+	for _, fd := range load.AllFuncDecls(pkg) {
+		if fd.Body == nil {
+			continue
+		}
+		var stack []ast.Node
+		ast.Inspect(fd.Body, func(nd ast.Node) bool {
+			if nd == nil {
+				stack = stack[:len(stack)-1]
+				return true
+			}
+			stack = append(stack, nd)
+			call, ok := nd.(*ast.CallExpr)
+			if !ok {
+				return true
+			}
+			kind, _, isLookup := e.posLookup(pkg, call, 0)
+			if !isLookup {
+				return true
+			}
+			n++
+			if kind != "adjusted" {
+				return true
+			}
+			// what is the adjusted position used for?
+			use := ""
+			parent := stack[len(stack)-2]
+			switch p := parent.(type) {
+			case *ast.SelectorExpr:
+				if p.Sel.Name == "Line" || p.Sel.Name == "Column" {
+					use = p.Sel.Name
+				}
+			case *ast.AssignStmt:
+				// pos := fset.Position(p) … pos.Line
+				for i, r := range p.Rhs {
+					if r != ast.Expr(call) || i >= len(p.Lhs) {
+						continue
+					}
+					id, ok := p.Lhs[i].(*ast.Ident)
+					if !ok {
+						continue
+					}
+					o := info.ObjectOf(id)
+					ast.Inspect(fd.Body, func(m ast.Node) bool {
+						if se, ok := m.(*ast.SelectorExpr); ok && (se.Sel.Name == "Line" || se.Sel.Name == "Column") {
+							if xid, ok := se.X.(*ast.Ident); ok && info.Uses[xid] == o {
+								use = se.Sel.Name
+							}
+						}
+						return true
+					})
+				}
+			case *ast.ReturnStmt:
+				use = "returned"
+			}
+			if use == "" {
+				return true // Filename (R-SAVE's business), or an argument of a debug/format call
+			}
+			e.Run.Check("R-FRAG", fmt.Sprintf("%s: line and column numbers used for layout are those of the source text", load.FuncName(fd)), e.Prog.Pos(call.Pos()), false,
+				fmt.Sprintf("%s of %s is adjusted by //line directives: two lines of one file can report the same number (a line break is dropped as if it were inside a comment or raw string) or a line can report its predecessor's number (the break between them is never found); use PositionFor(p, false)", use, types.ExprString(call)))
+			return true
+		})
+	}
+	e.Run.Floor("R-FRAG", "position look-ups in the decorator", n, 5)
+}
+
+// posLookup: call maps a token.Pos to a token.Position. kind is "adjusted" (//line directives
+// applied: FileSet.Position, File.Position, PositionFor(p, true)) or "physical" (PositionFor(p,
+// false)); a same-package function whose body is a single return of such a look-up on its own
+// parameter is a look-up of the same kind. arg is the position looked up.
+func (e *Env) posLookup(pkg *packages.Package, call *ast.CallExpr, depth int) (kind string, arg ast.Expr, ok bool) {
+	info := pkg.TypesInfo
+	fn := calleeFunc(info, call)
+	if fn == nil || fn.Pkg() == nil {
+		return "", nil, false
+	}
+	if fn.Pkg().Path() == "go/token" {
+		switch fn.Name() {
+		case "Position":
+			if len(call.Args) == 1 {
+				return "adjusted", call.Args[0], true
+			}
+		case "PositionFor":
+			if len(call.Args) == 2 {
+				if tv := info.Types[call.Args[1]]; tv.Value != nil && tv.Value.String() == "false" {
+					return "physical", call.Args[0], true
+				}
+				return "adjusted", call.Args[0], true
+			}
+		}
+		return "", nil, false
+	}
+	if fn.Pkg() != pkg.Types || depth > 2 || len(call.Args) != 1 {
+		return "", nil, false
+	}
+	for _, d := range load.AllFuncDecls(pkg) {
+		if info.Defs[d.Name] != types.Object(fn) || d.Body == nil || len(d.Body.List) != 1 {
+			continue
+		}
+		ret, isRet := d.Body.List[0].(*ast.ReturnStmt)
+		if !isRet || len(ret.Results) != 1 || d.Type.Params == nil || len(d.Type.Params.List) != 1 || len(d.Type.Params.List[0].Names) != 1 {
+			return "", nil, false
+		}
+		inner, isCall := ast.Unparen(ret.Results[0]).(*ast.CallExpr)
+		if !isCall {
+			return "", nil, false
+		}
+		k, a, okI := e.posLookup(pkg, inner, depth+1)
+		if !okI {
+			return "", nil, false
+		}
+		if id, isID := ast.Unparen(a).(*ast.Ident); !isID || info.Uses[id] != info.Defs[d.Type.Params.List[0].Names[0]] {
+			return "", nil, false
+		}
+		return k, call.Args[0], true
+	}
+	return "", nil, false
+}
+
+// RSearchTransparency (R-FRAG): a comment that has already been attached to a decoration point
+// is transparent to the attachment searches: in every method of the decorator that walks the
+// fragment list looking for a decoration point (results ending in (*decorationFragment, bool)),
+// the code that handles a *commentFragment never gives up the search (returns without a hit) for
+// an attached comment. findDecoration skips them (`if current.Attached != nil { continue }`),
+// findNode follows them; a search that stops there makes the second comment on a line miss the
+// element it trails: it is swept forward onto the next sibling and travels with the wrong node.
+func (e *Env) RSearchTransparency() {
+	pkg := e.Prog.Pkg(load.PkgDecorator)
+	info := pkg.TypesInfo
+	c := e.Sib.Ctx[load.PkgDecorator]
+	n := 0
+	for _, fd := range load.AllFuncDecls(pkg) {
+		if fd.Body == nil || fd.Recv == nil || fd.Type.Results == nil {
+			continue
+		}
+		fn, _ := info.Defs[fd.Name].(*types.Func)
+		if fn == nil {
+			continue
+		}
+		sig := fn.Type().(*types.Signature)
+		k := sig.Results().Len()
+		if k < 2 {
+			continue
+		}
+		if b, ok := sig.Results().At(k - 1).Type().Underlying().(*types.Basic); !ok || b.Kind() != types.Bool {
+			continue
+		}
+		if _, tn := namedOf(sig.Results().At(k - 2).Type()); tn != "decorationFragment" {
+			continue
+		}
+		// the type switch over the fragments inside a loop
+		ast.Inspect(fd.Body, func(nd ast.Node) bool {
+			ts, ok := nd.(*ast.TypeSwitchStmt)
+			if !ok {
+				return true
+			}
+			var boundName string
+			var subject ast.Expr
+			switch a := ts.Assign.(type) {
+			case *ast.AssignStmt:
+				if len(a.Lhs) == 1 && len(a.Rhs) == 1 {
+					boundName = types.ExprString(a.Lhs[0])
+					if ta, ok := a.Rhs[0].(*ast.TypeAssertExpr); ok {
+						subject = ta.X
+					}
+				}
+			case *ast.ExprStmt:
+				if ta, ok := a.X.(*ast.TypeAssertExpr); ok {
+					subject = ta.X
+				}
+			}
+			if subject == nil {
+				return true
+			}
+			if _, tn := namedOf(info.TypeOf(subject)); tn != "fragment" {
+				return true
+			}
+			// the clause that receives a *commentFragment
+			var clause *ast.CaseClause
+			explicit := false
+			for _, cl := range ts.Body.List {
+				cc := cl.(*ast.CaseClause)
+				if cc.List == nil {
+					if clause == nil {
+						clause = cc
+					}
+					continue
+				}
+				for _, t := range cc.List {
+					if _, tn := namedOf(info.TypeOf(t)); tn == "commentFragment" {
+						clause, explicit = cc, len(cc.List) == 1
+					}
+				}
+			}
+			if clause == nil {
+				return true // comments fall through the switch: the loop goes on
+			}
+			n++
+			undo := c.InstallReaching(fd)
+			defer undo()
+			ast.Inspect(clause, func(m ast.Node) bool {
+				if _, isLit := m.(*ast.FuncLit); isLit {
+					return false
+				}
+				rs, ok := m.(*ast.ReturnStmt)
+				if !ok {
+					return true
+				}
+				if len(rs.Results) == k && types.ExprString(rs.Results[k-1]) == "true" {
+					return true // a hit
+				}
+				key := fmt.Sprintf("%s: an attached comment does not end the search", load.FuncName(fd))
+				if !explicit || boundName == "" || boundName == "_" {
+					e.Run.Check("R-FRAG", key, e.Prog.Pos(rs.Pos()), false,
+						"the search gives up here for every fragment kind this arm receives, comments that are already attached included (the arm cannot tell: it does not see the fragment as a *commentFragment)")
+					return true
+				}
+				cond, okc := pathCond(c, clause.Body, rs)
+				if cond == "" {
+					cond = "true"
+				}
+				excl, dec := unsatWith(cond, boundName+".Attached != nil")
+				if !okc || !dec {
+					e.Run.Undecided("R-FRAG", key, e.Prog.Pos(rs.Pos()), "condition not propositional: "+cond)
+					return true
+				}
+				e.Run.Check("R-FRAG", key, e.Prog.Pos(rs.Pos()), excl,
+					"the search returns without a hit under `"+cond+"`, which an attached comment can satisfy: such comments are skipped (findDecoration) or followed (findNode) everywhere else")
+				return true
+			})
+			return true
+		})
+	}
+	e.Run.Floor("R-FRAG", "comment arms of decoration searches", n, 2)
 }
